@@ -28,7 +28,7 @@ structure Lwe where
 def ctValidFor (l : Level) (ct : Ct) : Bool :=
   ct.polys.all (fun p => p.size = l.size ∧
       (List.range l.size).all (fun i => (p.getD i #[]).size = l.n ∧ (p.getD i #[]).all (· < (l.q i).value)))
-  ∧ (if l.scheme = .bgv then 0 < ct.cf ∧ ct.cf ≤ l.t.value else ct.cf = 1)
+  ∧ (if l.scheme = .bgv then 0 < ct.cf ∧ ct.cf < l.t.value else ct.cf = 1)
 
 /-- `Evaluator::extract_lwe(encrypted, term)` -/
 def extractLwe (l : Level) (ct : Ct) (term : Nat) : R Lwe := do
